@@ -182,3 +182,113 @@ def c11(ctx):
                        "each look-up on the instrumented library, on the Lean model, and against the container content (oracle)")
 
 CHECKS = {"C05": c05, "C06": c06, "C07": c07, "C08": c08, "C09": c09, "C10": c10, "C11": c11}
+
+# ------------------------------------------------------------------------------------------ file properties
+def _spec_after_saves(lines):
+    """insert `specdecode` ops after every save so the Spec decoder's view is in the model stream"""
+    out = []
+    for l in lines:
+        out.append(l)
+        if l.startswith("save "):
+            p = l.split(" ")[1]
+            out.append("specdecode %s float" % p); out.append("specdecode %s" % p)
+    return out
+
+def _file_oracle(kinds):
+    """oracle over a run: C03 clauses at each save, C01 content equality across save->load, C04 generations"""
+    def orc(res):
+        out = []
+        lines = res.script.split("\n")
+        mem_at_save = {}
+        last = None
+        recs = list(oracles.Walk(res))
+        mrec = {r_["n"]: r_ for r_ in res.mrecs}
+        saved_dump = {}      # path -> dump of the object that saved it
+        for i, (rec, t, prev, d, vars_) in enumerate(recs):
+            if rec["op"] == "save" and rec["res"] == "R ok" and d is not None:
+                path = t[1].replace("@W@", res.wd)
+                saved_dump[t[1]] = d
+                if "C03" in kinds:
+                    sf = mrec.get(rec["n"] + 1); ss = mrec.get(rec["n"] + 2)
+                    specf = oracles.parse_spec(sf["lines"]) if sf and sf["res"] == "R ok" else None
+                    spec = oracles.parse_spec(ss["lines"]) if ss and ss["res"] == "R ok" else None
+                    try: fb = open(path, "rb").read()
+                    except Exception: fb = b""
+                    out.append(("_c03_files_decoded", {}, ""))
+                    for clause, where, detail in oracles.c03_clauses(d, spec, specf, fb):
+                        where = dict(where); where["op"] = rec["n"]
+                        out.append((clause, where, detail))
+            elif rec["op"] == "load" and t[1] in saved_dump and "C01" in kinds:
+                before = saved_dump[t[1]]
+                if rec["res"] != "R ok":
+                    out.append(("reload", {"op": rec["n"], "got": rec["res"]}, "a file the library saved cannot be loaded back: %s" % rec["res"]))
+                elif d is not None:
+                    if not oracles.complete_frames(before):
+                        out.append(("_c01_outside_domain_incomplete_frames", {}, "")); continue
+                    out.append(("_c01_roundtrips_compared", {}, ""))
+                    if before["NF"] > 0: out.append(("_c01_roundtrips_with_frames", {}, ""))
+                    df = oracles.diff_content(oracles.content_view(before), oracles.content_view(d))
+                    if df:
+                        w = dict(df[2]); w["op"] = rec["n"]
+                        out.append((df[0], w, df[1]))
+        return out
+    return orc
+
+VALID_RULE = ("histories of valid calls only (declared points/channels, rates, parameters of every type with 0-7 dimensions incl. empty "
+              "ones, descriptions 0-255, names <= 127, string values without trailing blanks/NUL, complete frames, lock toggles, appends and "
+              "replacements) ending in save -> load -> save; the saved bytes are compared with the model's bytes, the reloaded object with the "
+              "saving object, and the file is decoded by the independent Spec decoder (Lean) following only its own pointers")
+
+def valid_scripts(ctx, n, nops=25, seed_off=0):
+    out = []
+    for i in range(n):
+        seed = ctx.seed * 100003 + seed_off + i
+        L, st = gen.gen_api_history(seed, nops=nops, malformed=0.0, with_io="@W@/f%d" % i, within_capacity=True, rep=True)
+        out.append((_spec_after_saves(L), st, "valid-%d" % seed))
+    return out
+
+def residue_scripts(ctx, residues):
+    """C03: sweep the parameter-section length through residues mod 512 by growing one description"""
+    out = []
+    base = 0
+    for k in residues:
+        L = ["new", "point x5031", "analog x4331", "param x504f494e54 x52415445 x 0 F - 42c80000", "param x414e414c4f47 x52415445 x 0 F - 43480000",
+             "mkframe v x5031:3f800000:40000000:40400000:3e800000 x4331:3f000000|x4331:bf000000", "frame v", "frame v",
+             "param x4747 x5050 %s 0 I - 7" % gen.xhex(bytes([65 + (j % 26) for j in range(k % 256)])),
+             "param x4747 x5151 %s 0 I - 8" % gen.xhex(bytes([97 + (j % 26) for j in range(255 if k >= 256 else 0)])),
+             "save @W@/r.c3d", "load @W@/r.c3d", "save @W@/r2.c3d"]
+        out.append((_spec_after_saves(L), {"residue_sweep": 1}, "residue-%d" % k))
+    return out
+
+def check_file_property(ctx, kinds, n_quick, n_thorough, extra=None):
+    ctx.audit = leanaudit.audit(ctx.pid, thorough=not ctx.quick)
+    n = n_quick if ctx.quick else n_thorough
+    scripts = corpus_scripts(ctx.pid) + valid_scripts(ctx, n)
+    if extra: scripts += extra(ctx)
+    orc = _file_oracle(kinds)
+    exe = ctx.exe("asan")
+    def one(item):
+        lines, st, tag = item
+        res = run.run_pair(lines, exe, keep=True)
+        try: fails = orc(res)
+        except Exception:
+            import traceback; fails = []; ctx.notes.append("oracle error %s: %s" % (tag, traceback.format_exc()[-500:]))
+        run.cleanup(res.wd)
+        return item, res, fails
+    for (lines, st, tag), res, fails in core.pmap(one, scripts):
+        ctx.merge_stats(st)
+        ctx.record_pair(res, lines, "file")
+        if len(ctx.samples) < 3: ctx.sample("[file] " + " ; ".join(l[:80] for l in lines[:10]))
+        for clause, where, detail in fails:
+            if clause.startswith("_"): ctx.count("oracle" + clause)
+            else: ctx.fail(clause, where, detail, lines)
+    return core.finish(ctx, VALID_RULE)
+
+def c01(ctx): return check_file_property(ctx, {"C01"}, 150, 4000)
+def c03(ctx):
+    def extra(c):
+        res = list(range(0, 512, 8)) if c.quick else list(range(512))
+        return residue_scripts(c, res)
+    return check_file_property(ctx, {"C03"}, 100, 2500, extra=extra)
+
+CHECKS.update({"C01": c01, "C03": c03})
